@@ -765,6 +765,8 @@ pub struct Decl {
     reads: Vec<ResourceId>,
     writes: Vec<ResourceId>,
     probes: u64,
+    /// borrows taken (and released again) *inside* fetch() that the declaration does not cover
+    transient: Vec<String>,
 }
 
 fn panic_text(e: &Box<dyn std::any::Any + Send>) -> String {
@@ -830,7 +832,42 @@ fn probe_data<'a, T: SystemData<'a>>(w: &'a World, name: &'static str) -> Decl {
     let held = classify_all(w, &mut probes);
     drop(value);
     let after = classify_all(w, &mut probes);
-    Decl { name: tidy(name), before, held, after, reads: T::reads(), writes: T::writes(), probes }
+    // Interference probe: while somebody else holds a resource the handle does not declare
+    // (exclusively), or one it declares as a read (shared), fetch() must still succeed. This also sees
+    // borrows that fetch() takes only briefly, e.g. of the storage registry.
+    let reads = T::reads();
+    let writes = T::writes();
+    let mut transient = Vec::new();
+    macro_rules! hold_and_fetch {
+        ($r:ty, $label:expr) => {{
+            let id = ResourceId::new::<$r>();
+            if w.has_value::<$r>() {
+                if !reads.contains(&id) && !writes.contains(&id) {
+                    let g = w.fetch_mut::<$r>();
+                    probes += 1;
+                    if let Err(e) = catch_unwind(AssertUnwindSafe(|| drop(T::fetch(w)))) {
+                        transient.push(format!("fetch() touches {} although it declares neither a read nor a write of it ({})", $label, panic_text(&e)));
+                    }
+                    drop(g);
+                } else if reads.contains(&id) && !writes.contains(&id) {
+                    let g = w.fetch::<$r>();
+                    probes += 1;
+                    if let Err(e) = catch_unwind(AssertUnwindSafe(|| drop(T::fetch(w)))) {
+                        transient.push(format!("fetch() needs {} exclusively although it only declares a read of it ({})", $label, panic_text(&e)));
+                    }
+                    drop(g);
+                }
+            }
+        }};
+    }
+    hold_and_fetch!(EntitiesRes, "EntitiesRes");
+    hold_and_fetch!(MaskedStorage<A>, "MaskedStorage<A>");
+    hold_and_fetch!(MaskedStorage<B>, "MaskedStorage<B>");
+    hold_and_fetch!(MaskedStorage<C>, "MaskedStorage<C>");
+    hold_and_fetch!(MaskedStorage<D>, "MaskedStorage<D>");
+    hold_and_fetch!(LazyUpdate, "LazyUpdate");
+    hold_and_fetch!(specs::shred::MetaTable<dyn specs::storage::AnyStorage>, "the storage registry MetaTable<dyn AnyStorage>");
+    Decl { name: tidy(name), before, held, after, reads, writes, probes, transient }
 }
 
 macro_rules! probe_fn {
@@ -887,6 +924,9 @@ fn id_names(ids: &[ResourceId], cands: &[ResourceId; NCAND]) -> Vec<String> {
 
 fn judge_decl(d: &Decl) -> DeclVerdict {
     let cands = cand_ids();
+    if let Some(t) = d.transient.first() {
+        return DeclVerdict::Mismatch(format!("{}: {}", d.name, t));
+    }
     let decl_txt = format!(
         "reads()={:?} writes()={:?}",
         id_names(&d.reads, &cands),
